@@ -35,6 +35,7 @@ PYVC_ASSUMPTIONS = [
     "pyvc: id(obj) of a new object is an integer that is not the id of any object alive (ghost predicate alive); ids of nodes/edges stored in a graph are alive when the contract requires nodes_alive",
     "pyvc: hash() is consistent with == for keys (str, ids, frozen dataclasses, hashable domain values)",
     "pyvc: str is an uninterpreted sort with equality; string literals are pairwise distinct",
+    "pyvc: a rule object stored in a grammar's rule table is viewed as an immutable snapshot (lhs, rhs edges / nodes / externals): rules are not mutated while a query runs",
     "pyvc: a local first assigned inside a `for` body is taken to be bound after the loop (Python's UnboundLocalError after zero iterations is not modelled)",
     "pyvc: quantified VCs are discharged by z3's E-matching/MBQI under a deterministic rlimit, then cvc5; `unknown` is never reported as proved",
 ]
@@ -178,8 +179,8 @@ SPEC = {
                      "snapshot comparison around queries."),
     "C19": dict(level="other", pyvc=True, extra=[],
                 text="Proved: nonterminal_graph has every nonterminal as a vertex, an edge X->Y exactly when a rule of X has an rhs edge labelled "
-                     "by the nonterminal Y, and is closed -- over a read-only view of the HRG whose accessors all_rules/rules enter as ASSUMED "
-                     "contracts. scc (Tarjan, with its nested recursive visit verified against its own contract): the result is a partition of "
+                     "by the nonterminal Y, and is closed -- over a view of the HRG with its rule table (rules as immutable snapshots) on which "
+                     "HRG.all_rules / HRG.rules are themselves verified (exactly the rules of the table; the table entry or nothing). scc (Tarjan, with its nested recursive visit verified against its own contract): the result is a partition of "
                      "the vertex set into non-empty pairwise disjoint blocks and no KeyError/IndexError occurs on a closed adjacency map. "
                      "That the blocks are exactly the SCCs in dependency order: bounded stand-in, exhaustive over all digraphs up to 4 "
                      "vertices and all insertion orders."),
